@@ -21,7 +21,10 @@ RULE = ("(a) plan stream: POD GAC/LAC files whose tie-point latitude encodes the
         "the time shift are compared with the Lean plan; (b) orbit stream: tie points of a TLE-propagated NOAA-14 orbit, "
         "real and injected clock errors, gaps near and far from the first line, GAC and LAC: corrected positions vs the "
         "same orbit at the corrected times (0.02 deg); (c) skip stream: KLM, no table, stale TLE, disabled: coordinates "
-        "and times unchanged, no exception; (d) real np.interp of the shipped tables vs the model. A case = one pass; "
+        "and times unchanged, no exception; (d) real np.interp of the shipped tables vs the model; (e) passes of NOAA-7/9/11/12/14 "
+        "at times inside / at the ends of / between / outside the rows of the published tables (every third one in a row "
+        "that follows an out-of-order clock reset), read with the shipped table: time shift and placement vs the row's own "
+        "linear interpolation (times where two rows overlap are skipped). A case = one pass; "
         "non-trivial = non-zero error or a gap; distinct by (format, line numbers, error profile)")
 TRUSTED_EXTRA = ["pyorbital (SGP4, scan geometry) is an external parameter: the 0.02 deg agreement is numerical support",
                  "libm trigonometry of the great-circle interpolation is compared numerically"]
@@ -351,6 +354,121 @@ def table_cases(ctx, rng):
                 ctx.corr_break("clock error interpolation differs for %s" % l[:40])
 
 
+# ---------------------------------------------------------------------------- (e) published tables through the real reader
+
+SAT_IDS = {"noaa7": 4, "noaa9": 7, "noaa11": 1, "noaa12": 5, "noaa14": 3}
+
+
+def table_rows(sat):
+    """rows (start ms, error at start, end ms, error at end) of the published table, as printed in the source text"""
+    from pygac.clock_offsets_converter import txt
+    rows = []
+    ep = datetime.datetime(1970, 1, 1)
+    for line in txt[sat].split("\n"):
+        e = line.split()
+        if len(e) < 6:
+            continue
+        a = datetime.datetime.strptime(e[0] + e[1], "%y%j%H%M%S")
+        b = datetime.datetime.strptime(e[3] + e[4], "%y%j%H%M%S")
+        rows.append((int((a - ep).total_seconds() * 1000), Fraction(e[2]), int((b - ep).total_seconds() * 1000), Fraction(e[5])))
+    return rows
+
+
+def row_error(rows, t):
+    """The clock error the published rows assign to time t: linear inside a row, linear across the gap between one row's
+    end and the next row's start, constant outside the table; None where rows overlap or run backwards (the table gives
+    two answers there)."""
+    nodes = [(r[0], r[1]) for r in rows] + [(r[2], r[3]) for r in rows]
+    lo, hi = min(n[0] for n in nodes), max(n[0] for n in nodes)
+    if t < lo:
+        return min(nodes)[1] if [n for n in nodes if n[0] == lo] else None
+    if t > hi:
+        return max(nodes)[1]
+    inside = [r for r in rows if r[0] <= t <= r[2]]
+    backward = [r for r in rows if r[2] < r[0] and r[2] <= t <= r[0]]
+    if backward:
+        return None
+    vals = set()
+    for r in inside:
+        vals.add(r[1] if r[2] == r[0] else r[1] + (r[3] - r[1]) * Fraction(t - r[0], r[2] - r[0]))
+    if len(vals) == 1:
+        return vals.pop()
+    if len(vals) > 1:
+        return None
+    # in a gap between the end of one row and the start of the next one (in table order)
+    for r, q in zip(rows, rows[1:]):
+        if r[2] < t < q[0]:
+            return r[3] + (q[1] - r[3]) * Fraction(t - r[2], q[0] - r[2])
+    return None
+
+
+def realtable_case(ctx, rng, k):
+    sat = ["noaa14", "noaa12", "noaa11", "noaa9", "noaa7"][k % 5]
+    rows = table_rows(sat)
+    i = rng.randrange(len(rows))
+    if k % 3 == 0:
+        # rows that follow a row whose end lies after their own start (a clock reset listed out of order)
+        after = [j for j in range(1, len(rows)) if rows[j][0] < rows[j - 1][2]]
+        i = rng.choice(after) if after else i
+    r = rows[i]
+    where = rng.choice(["inside", "inside", "inside", "near-start", "near-end", "gap", "outside"])
+    if where == "inside" and r[2] > r[0]:
+        t = rng.randint(r[0], r[2])
+    elif where == "near-start":
+        t = r[0] + rng.randint(0, 7200000)
+    elif where == "near-end":
+        t = r[2] - rng.randint(0, 7200000)
+    elif where == "gap" and i + 1 < len(rows) and rows[i + 1][0] > r[2]:
+        t = rng.randint(r[2], rows[i + 1][0])
+    elif where == "outside":
+        t = rng.choice([min(x[0] for x in rows) - rng.randint(1000, 10 ** 9), max(x[2] for x in rows) + rng.randint(1000, 10 ** 9)])
+    else:
+        t = rng.randint(min(r[0], r[2]), max(r[0], r[2]))
+    fmt = "podGac"
+    n0, n = rng.choice([1, 5, 400]), 6
+    nums = list(range(n0, n0 + n))
+    lat_base = n0 - 100
+    lats = ((np.array(nums, dtype=float) - lat_base) / 128.0)[:, None] * np.ones((1, 51))
+    lons = np.ones((n, 1)) * np.linspace(-60, 60, 51)[None, :]
+    if t < ydm_to_ms(1979, 1, 0):
+        return
+    b = pod_pass(ctx, fmt, nums, t, lats, lons, rng)
+    b.sat_id = SAT_IDS[sat]
+    cap = {}
+
+    def fake(self, missed_utcs):
+        us = np.asarray(missed_utcs).astype("datetime64[us]").astype(np.int64)
+        line = n0 + np.rint((us - t * 1000) / 500000.0)
+        return (np.ones((len(us), 1)) * np.linspace(-60, 60, 51)[None, :], ((line - lat_base) / 128.0)[:, None] * np.ones((1, 51)))
+
+    payload = {"stream": "realtable", "sat": sat, "start": t, "nums": nums, "row": i, "where": where}
+    try:
+        rd, t_pre, t_post, lons_o, lats_o = run_reader(ctx, b, fmt, capture=cap, fake_missing=fake)
+    except Exception as e:
+        ctx.violation("%s pass at %d: clock-drift correction raised %r" % (sat, t, e), payload, cls="raises:" + type(e).__name__)
+        return
+    if rd.spacecraft_name != sat or len(t_pre) != n:
+        ctx.notes.append("real-table pass not read as intended (%s, %d lines)" % (rd.spacecraft_name, len(t_pre)))
+        return
+    errs = [row_error(rows, int(x)) for x in t_pre.tolist()]
+    if any(e is None for e in errs):
+        ctx.branches["realtable/ambiguous-rows-skipped"] += 1
+        return
+    want_shift = [int(e * 1000) if e >= 0 else -int(-e * 1000) for e in errs]
+    got_shift = (t_pre - t_post).tolist()
+    if any(abs(a - b_) > 1 for a, b_ in zip(got_shift, want_shift)):
+        ctx.violation("%s pass at %s (table row %d, %s): times shifted by %s.. ms, the published row gives %s.. ms" % (
+            sat, np.datetime64(int(t), "ms"), i, where, got_shift[:2], want_shift[:2]), payload, cls="table-timeshift")
+    shifted = np.array([float(Fraction(nn) - e * 2) for nn, e in zip(nums, errs)])
+    dlat = np.abs(lats_o - ((shifted - lat_base) / 128.0)[:, None])
+    if not np.all(np.isfinite(lats_o)) or dlat.max() > 2e-6:
+        ctx.violation("%s pass at %s (table row %d): line %d placed at fractional line %.4f, the published row gives %.4f" % (
+            sat, np.datetime64(int(t), "ms"), i, nums[0], float(lats_o[0, 25]) * 128 + lat_base, shifted[0]), payload,
+            cls="table-position")
+    ctx.case((sat, t), nontrivial=any(e != 0 for e in errs), branch="realtable/%s/%s" % (sat, where))
+
+
+
 def run(ctx):
     rng = ctx.rng
     drv = []
@@ -360,6 +478,8 @@ def run(ctx):
         orbit_case(ctx, rng, k)
     skip_cases(ctx, rng)
     table_cases(ctx, rng)
+    for k in range(ctx.n(60, 600)):
+        realtable_case(ctx, rng, k)
     if not ctx.driver_ok:
         ctx.corr_break("lean driver unavailable: correspondence not run")
         return
